@@ -58,7 +58,8 @@ def run(module, cfg, *, workers=None, env=None, timeout=600, simulate=None, dept
     # (ParallelGC/G1 spend most of their time in the kernel); JSON-heavy trace validation is
     # fastest with 4 workers and 4 parallel GC threads.
     gc = list(jvm) if any("GC" in o for o in jvm) else ["-XX:+UseSerialGC", *jvm]
-    cmd = ["java", *gc, "-Xmx12g", "-Xss16m", "-cp", JAR, "tlc2.TLC",
+    # TLC leaves an empty tlc-<n> directory in java.io.tmpdir per run: keep it inside the scratch directory
+    cmd = ["java", *gc, "-Xmx12g", "-Xss16m", "-Djava.io.tmpdir=" + work, "-cp", JAR, "tlc2.TLC",
            "-workers", str(workers), "-metadir", os.path.join(work, "meta"),
            "-noGenerateSpecTE", "-config", cfg_path]
     if simulate is not None:
